@@ -118,8 +118,21 @@ func (vm *c09vm) dirty() []types.Object {
 
 // fresh re-initialises written package state: the next run starts from the program's initial state.
 func (vm *c09vm) fresh() {
-	for _, o := range vm.dirty() {
+	dropped := vm.dirty()
+	for _, o := range dropped {
 		delete(vm.globals, o)
+		vm.initReset(o) // a variable init() wrote: its init() functions run again before the next read
+	}
+	if len(dropped) > 0 {
+		// what a sync.Once / OnceValue guarded may be among the dropped state: they have to run again
+		// (when nothing was written there is nothing to drop, and what they computed is still the initial state)
+		for _, o := range vm.ini.onces {
+			o.f["done"] = false
+		}
+		for _, o := range vm.ini.oncevals {
+			o.done, o.vals = false, nil
+		}
+		vm.ini.onces, vm.ini.oncevals = nil, nil
 	}
 	vm.gdirty = nil
 }
@@ -185,11 +198,10 @@ func init() {
 			return nil
 		}
 		o.f["done"] = true
-		cl, ok := a[0].(*c09closure)
-		if !ok || cl == nil {
-			vm.abort("sync.Once.Do of a non-literal function")
+		vm.ini.onces = append(vm.ini.onces, o) // re-armed when the written state is re-initialised (fresh)
+		if _, ok := vm.callValue(a[0], func() []any { return nil }); !ok {
+			vm.abort("sync.Once.Do of a function value the interpreter cannot follow")
 		}
-		vm.callClosure(cl, nil)
 		return nil
 	}
 	registerExtra("C09", c09HistoryIndependence)
